@@ -445,11 +445,15 @@ class CFG:
         return out
 
     def in_loop_body(self, loop: Node) -> set[int]:
-        """Nodes of the body of loop header `loop` (reach along iter/true
-        without passing the header again)."""
-        lab = 'iter' if loop.kind == 'for' else 'true'
-        starts = [b for b, l in self.succ[loop.id] if l == lab]
-        return self.reach(starts, blocked=[loop.id])
+        """Node ids of the (nested) body statements of loop header `loop`."""
+        inside: set[int] = set()
+        for st in loop.stmt.body:  # type: ignore[union-attr]
+            for x in ast.walk(st):
+                inside.add(id(x))
+        return {
+            n.id for n in self.nodes
+            if n.stmt is not None and id(n.stmt) in inside
+        }
 
 
 def handler_names(h: ast.ExceptHandler) -> set[str]:
